@@ -20,4 +20,5 @@ package sha
 //@   returns h, err
 //@   pure
 //@   ensures [len] {C19,C03} err == nil ==> len(h) >= 20 && 2 * len(h) == len(hashString)
+//@   ensures [value] {C03} err == nil ==> string(h) == unhex(hashString)
 //@   ensures [reject] {C19} err != nil ==> len(h) == 0
